@@ -244,6 +244,41 @@ def run_tree(tree, inputs, nz_leaf=None, nz_build=False):
     return out, errors
 
 
+def run_tree_3phase(tree, inputs, nz_build=False):
+    """Like run_tree, but every leaf is a FormulaEngine3Phase over three per-phase streams.
+    inputs: list (one per timestamp) of dict leaf -> (v1, v2, v3).  Returns list of (k, (p1, p2, p3))."""
+    from frequenz.sdk.timeseries.formula_engine import FormulaEngine3Phase
+
+    names = sorted(set(leaves_of(tree)))
+    out = []
+    with virtual_loop() as loop:
+        chans = {(n, ph): Broadcast(name=f"in-{n}-{ph}") for n in names for ph in range(3)}
+        senders = {k: c.new_sender() for k, c in chans.items()}
+        engines = {
+            n: FormulaEngine3Phase(
+                f"leaf3-{n}", Quantity,
+                tuple(FormulaEngine.from_receiver(f"leaf-{n}-{ph}", chans[(n, ph)].new_receiver(), Quantity) for ph in range(3)),
+            )
+            for n in names
+        }
+        counter = Counter()
+        top = build_api(tree, engines, counter)
+        engine = top if isinstance(top, FormulaEngine3Phase) else top.build("top3", nones_are_zeros=nz_build)
+        rx = engine.new_receiver()
+        loop.settle()
+        for k, vals in enumerate(inputs):
+            for n in names:
+                for ph in range(3):
+                    v = vals[n][ph]
+                    push(senders[(n, ph)], Sample(ts(k), None if v is None else Quantity(float(v))))
+            loop.settle()
+            while len(rx):
+                s = rx.consume()
+                out.append((int((s.timestamp - T0).total_seconds()),
+                            tuple(None if x is None else x.base_value for x in (s.value_p1, s.value_p2, s.value_p3))))
+    return out
+
+
 # ---------------------------------------------------------------------------
 # formula strings
 # ---------------------------------------------------------------------------
